@@ -62,6 +62,10 @@ func (a *FA) build() {
 		case *ssa.Panic:
 			a.exit[b.Index] = "reject"
 		case *ssa.Return:
+			if fn.Recover != nil && b == fn.Recover {
+				a.exit[b.Index] = "recover" // only runs after a recovered panic; not a normal exit
+				continue
+			}
 			a.exit[b.Index] = a.classifyReturn(t)
 		}
 	}
@@ -70,7 +74,7 @@ func (a *FA) build() {
 		reach := a.reachFrom(b)
 		ok, any := true, false
 		for bi := range reach {
-			if c, isExit := a.exit[bi]; isExit {
+			if c, isExit := a.exit[bi]; isExit && c != "recover" {
 				any = true
 				if c != "reject" {
 					ok = false
@@ -79,6 +83,15 @@ func (a *FA) build() {
 		}
 		a.rejOnly[b.Index] = ok && any
 	}
+}
+
+func (a *FA) inCycle(b *ssa.BasicBlock) bool {
+	for _, s := range b.Succs {
+		if a.reachFrom(s)[b.Index] {
+			return true
+		}
+	}
+	return false
 }
 
 func (a *FA) reachFrom(b *ssa.BasicBlock) map[int]bool {
@@ -176,10 +189,10 @@ func (a *FA) resultKind() string {
 func (a *FA) classifyReturn(r *ssa.Return) string {
 	switch a.resultKind() {
 	case "error":
-		v := r.Results[len(r.Results)-1]
+		v := RetVal(r, len(r.Results)-1)
 		return a.classifyErr(v, r.Block(), 0)
 	case "bool":
-		v := r.Results[len(r.Results)-1]
+		v := RetVal(r, len(r.Results)-1)
 		if c, ok := v.(*ssa.Const); ok && c.Value != nil {
 			if c.Value.String() == "false" {
 				return "reject"
@@ -290,8 +303,8 @@ func (a *FA) Guards() []*Guard {
 		}
 		// context: dominating branch conditions that are not themselves the pass-edge of a guard
 		for _, j := range a.ifs {
-			if j == i {
-				continue
+			if j == i || a.inCycle(j.Block()) {
+				continue // loop-header conditions are not part of a guard's context
 			}
 			pair := a.edgeDom[j]
 			jb := j.Block()
@@ -341,7 +354,7 @@ func (p *Program) CallsIn(fn *ssa.Function) []*CallSite {
 			} else if f := p.resolveCallee(c); f != nil {
 				name = funcName(f)
 			} else {
-				name = "dyn"
+				name = "dyn:" + p.Ex(fn).E(c.Value).String()
 			}
 			out = append(out, &CallSite{Ins: ci, Fn: fn, Name: name})
 		}
@@ -370,9 +383,30 @@ func (a *FA) NonRejectReturns() []*ssa.Return {
 		if len(b.Instrs) == 0 {
 			continue
 		}
-		if r, ok := b.Instrs[len(b.Instrs)-1].(*ssa.Return); ok && a.exit[b.Index] != "reject" {
+		if r, ok := b.Instrs[len(b.Instrs)-1].(*ssa.Return); ok && a.exit[b.Index] != "reject" && a.exit[b.Index] != "recover" {
 			out = append(out, r)
 		}
 	}
 	return out
+}
+
+// RetVal returns result i of a Return, looking through the spill cell that go/ssa introduces when the
+// function has deferred calls (store to the result cell, run defers, return the loaded cell).
+func RetVal(r *ssa.Return, i int) ssa.Value {
+	v := r.Results[i]
+	ld, ok := v.(*ssa.UnOp)
+	if !ok || ld.Op != token.MUL {
+		return v
+	}
+	al, ok := ld.X.(*ssa.Alloc)
+	if !ok {
+		return v
+	}
+	instrs := r.Block().Instrs
+	for k := len(instrs) - 1; k >= 0; k-- {
+		if st, ok := instrs[k].(*ssa.Store); ok && st.Addr == al {
+			return st.Val
+		}
+	}
+	return v
 }
